@@ -1,5 +1,6 @@
 /-
-  `NotUsedName`: fresh under the consecutive-numbering invariant, and the collision outside it.
+  `NotUsedName`: the generated name is never in use (the counting loop of the fixed Go function always
+  finds a free candidate), and it is the next number under the consecutive-numbering invariant.
 -/
 import Std.Data.String.ToNat
 import Rdm.Model.BiasesB
@@ -10,13 +11,8 @@ def numberedName (base : String) : Nat → String
   | 0 => base
   | k + 1 => base ++ toString (k + 1)
 
-theorem notUsedName_eq (ids : List String) (base : String) :
-    notUsedName ids base = numberedName base (ids.filter fun i => i.startsWith base).length := by
-  unfold notUsedName
-  dsimp only
-  cases h : (ids.filter fun i => i.startsWith base).length with
-  | zero => simp [numberedName]
-  | succ k => simp [numberedName]
+theorem firstFreeName_eq (base : String) (k : Nat) : firstFreeName base k = numberedName base k := by
+  cases k <;> simp [firstFreeName, numberedName]
 
 theorem numberedName_prefixed (base : String) (k : Nat) : (numberedName base k).startsWith base = true := by
   cases k with
@@ -45,41 +41,129 @@ theorem numberedName_inj (base : String) {j k : Nat} (h : numberedName base j = 
       have := (String.append_right_inj base).mp h
       exact Nat.repr_injective this
 
+/-! ### the loop of `NotUsedName` -/
+
+/-- what the loop returns: the first candidate from `c` on that is not in use — a numbered name `k ≥ c`,
+    every candidate before it in use — provided the fuel does not run out before; `l` lists the ids that can
+    still be hit (every id that is a candidate `≥ c`), and is shorter than the fuel. -/
+theorem notUsedNameLoop_spec (ids : List String) (base : String) :
+    ∀ (fuel c : Nat) (l : List String), l.length < fuel →
+      (∀ i ∈ ids, ∀ k, c ≤ k → i = numberedName base k → i ∈ l) →
+      ∃ k, c ≤ k ∧ k ≤ c + l.length ∧ notUsedNameLoop ids base fuel c = numberedName base k ∧
+        numberedName base k ∉ ids ∧ ∀ j, c ≤ j → j < k → numberedName base j ∈ ids := by
+  intro fuel
+  induction fuel with
+  | zero => intro c l hl; omega
+  | succ f ih =>
+    intro c l hl hcov
+    unfold notUsedNameLoop
+    by_cases hmem : numberedName base c ∈ ids
+    · rw [if_pos (by simpa [firstFreeName_eq] using hmem)]
+      have hin : numberedName base c ∈ l := hcov _ hmem c (Nat.le_refl c) rfl
+      have hlen : (l.erase (numberedName base c)).length < f := by
+        rw [List.length_erase_of_mem hin]
+        have : 0 < l.length := List.length_pos_of_mem hin
+        omega
+      obtain ⟨k, hk1, hk2, hk3, hk4, hk5⟩ := ih (c + 1) (l.erase (numberedName base c)) hlen (by
+        intro i hi k hk e
+        have hil : i ∈ l := hcov i hi k (by omega) e
+        have hne : i ≠ numberedName base c := by
+          intro e'
+          have := numberedName_inj base (e.symm.trans e')
+          omega
+        exact (List.mem_erase_of_ne hne).mpr hil)
+      refine ⟨k, by omega, ?_, hk3, hk4, ?_⟩
+      · rw [List.length_erase_of_mem hin] at hk2
+        have : 0 < l.length := List.length_pos_of_mem hin
+        omega
+      · intro j hj1 hj2
+        by_cases hjc : j = c
+        · subst hjc; exact hmem
+        · exact hk5 j (by omega) hj2
+    · rw [if_neg (by simpa [firstFreeName_eq] using hmem)]
+      exact ⟨c, Nat.le_refl c, by omega, firstFreeName_eq base c, hmem, fun j h1 h2 => by omega⟩
+
+/-- **`NotUsedName` returns an unused id** — for every list of ids and every base name: the name is the
+    first numbered name, counting from the number of ids with the prefix, that is not in use.
+    (Pigeonhole: the `ids.length + 1` candidates the loop may test are pairwise different, so one is free.) -/
+theorem notUsedName_spec (ids : List String) (base : String) :
+    ∃ k, (ids.filter fun i => i.startsWith base).length ≤ k ∧
+      k ≤ (ids.filter fun i => i.startsWith base).length + ids.length ∧
+      notUsedName ids base = numberedName base k ∧ numberedName base k ∉ ids ∧
+      ∀ j, (ids.filter fun i => i.startsWith base).length ≤ j → j < k → numberedName base j ∈ ids := by
+  unfold notUsedName
+  exact notUsedNameLoop_spec ids base (ids.length + 1) _ ids (Nat.lt_succ_self _) (fun i hi _ _ _ => hi)
+
+theorem notUsedName_fresh (ids : List String) (base : String) : notUsedName ids base ∉ ids := by
+  obtain ⟨k, _, _, e, h, _⟩ := notUsedName_spec ids base
+  rw [e]; exact h
+
+theorem notUsedName_prefixed (ids : List String) (base : String) :
+    (notUsedName ids base).startsWith base = true := by
+  obtain ⟨k, _, _, e, _, _⟩ := notUsedName_spec ids base
+  rw [e]; exact numberedName_prefixed base k
+
+/-- the loop stops at once when the first candidate is free -/
+theorem notUsedName_of_first_free {ids : List String} {base : String}
+    (h : numberedName base (ids.filter fun i => i.startsWith base).length ∉ ids) :
+    notUsedName ids base = numberedName base (ids.filter fun i => i.startsWith base).length := by
+  unfold notUsedName notUsedNameLoop
+  rw [if_neg (by simpa [firstFreeName_eq] using h), firstFreeName_eq]
+
+/-! ### consecutive numbering -/
+
 /-- the naming invariant: the ids carrying the prefix are exactly the first `k` numbered names -/
 def NamingInvariant (ids : List String) (base : String) (k : Nat) : Prop :=
   (ids.filter fun i => i.startsWith base) = (List.range k).map (numberedName base)
 
-/-- under the invariant the generated name is the next numbered name and is not in use -/
-theorem notUsedName_fresh {ids : List String} {base : String} {k : Nat} (hinv : NamingInvariant ids base k) :
+/-- under the invariant the generated name is the next numbered name (and is not in use) -/
+theorem notUsedName_under_invariant {ids : List String} {base : String} {k : Nat} (hinv : NamingInvariant ids base k) :
     notUsedName ids base = numberedName base k ∧ notUsedName ids base ∉ ids := by
+  have hlen : (ids.filter fun i => i.startsWith base).length = k := by rw [hinv]; simp
+  have hfree : numberedName base k ∉ ids := by
+    intro hmem
+    have : numberedName base k ∈ ids.filter fun i => i.startsWith base := by
+      rw [List.mem_filter]; exact ⟨hmem, numberedName_prefixed base k⟩
+    rw [hinv, List.mem_map] at this
+    obtain ⟨j, hj, e⟩ := this
+    have := numberedName_inj base e
+    simp at hj
+    omega
   have hname : notUsedName ids base = numberedName base k := by
-    rw [notUsedName_eq, hinv]; simp
-  refine ⟨hname, ?_⟩
-  rw [hname]
-  intro hmem
-  have : numberedName base k ∈ ids.filter fun i => i.startsWith base := by
-    rw [List.mem_filter]; exact ⟨hmem, numberedName_prefixed base k⟩
-  rw [hinv, List.mem_map] at this
-  obtain ⟨j, hj, e⟩ := this
-  have := numberedName_inj base e
-  simp at hj
-  omega
+    have := notUsedName_of_first_free (ids := ids) (base := base) (by rw [hlen]; exact hfree)
+    rw [this, hlen]
+  exact ⟨hname, notUsedName_fresh ids base⟩
 
 /-- the invariant is preserved by appending the generated name -/
 theorem namingInvariant_step {ids : List String} {base : String} {k : Nat} (hinv : NamingInvariant ids base k) :
     NamingInvariant (ids ++ [notUsedName ids base]) base (k + 1) := by
   unfold NamingInvariant at *
-  rw [(notUsedName_fresh hinv).1, List.filter_append, hinv, List.range_succ, List.map_append]
+  rw [(notUsedName_under_invariant hinv).1, List.filter_append, hinv, List.range_succ, List.map_append]
   simp [numberedName_prefixed]
 
-/-- outside the invariant the name collides: when the only prefixed id left is `base1` (conceal,
-    conceal, omit the first, conceal) the generated name is `base1` again -/
-theorem notUsedName_collision {ids : List String} {base : String}
-    (h : (ids.filter fun i => i.startsWith base) = [base ++ "1"]) : notUsedName ids base ∈ ids := by
-  have hname : notUsedName ids base = base ++ "1" := by
-    rw [notUsedName_eq, h]; rfl
-  rw [hname]
-  have : base ++ "1" ∈ ids.filter fun i => i.startsWith base := by rw [h]; simp
-  exact (List.mem_filter.mp this).1
+/-- the state that used to collide (conceal, conceal, omit the first, conceal: the only prefixed id left is
+    `base1`): the loop skips the used `base1` and hands out `base2` -/
+theorem notUsedName_skips_used_name {ids : List String} {base : String}
+    (h : (ids.filter fun i => i.startsWith base) = [base ++ "1"]) : notUsedName ids base = base ++ "2" := by
+  obtain ⟨k, hk1, _, e, hfree, hused⟩ := notUsedName_spec ids base
+  rw [h] at hk1 hused
+  simp only [List.length_cons, List.length_nil, Nat.zero_add] at hk1 hused
+  have h1 : numberedName base 1 ∈ ids := by
+    have : base ++ "1" ∈ ids.filter fun i => i.startsWith base := by rw [h]; simp
+    exact (List.mem_filter.mp this).1
+  have h2 : numberedName base 2 ∉ ids := by
+    intro hmem
+    have : numberedName base 2 ∈ ids.filter fun i => i.startsWith base := by
+      rw [List.mem_filter]; exact ⟨hmem, numberedName_prefixed base 2⟩
+    rw [h, List.mem_singleton] at this
+    exact absurd (numberedName_inj base (j := 2) (k := 1) this) (by decide)
+  have hk : k = 2 := by
+    rcases Nat.lt_or_ge k 2 with hlt | hge
+    · have : k = 1 := by omega
+      subst this; exact absurd h1 hfree
+    · rcases Nat.lt_or_ge 2 k with hgt | hle
+      · exact absurd (hused 2 (by omega) hgt) h2
+      · omega
+  rw [e, hk]; rfl
 
 end Rdm
